@@ -243,6 +243,19 @@ func runC13(c *Ctx) {
 	ruleFillShape(c)
 	ruleFillValue(c)
 	ruleRecipientsInOrder(c)
+	// the BDAT collector is sized for the recipients accepted so far: from the moment it exists no further RCPT may
+	// be accepted, which handleRcpt decides by "a pipe is open" — so handleBdat never returns with a collector
+	// but without a pipe
+	R.Rule("R-collector-with-pipe", "E2 must-pass-through", "after creating the BDAT status collector every path through handleBdat either has a pipe already or creates one before returning", 1)
+	if f := c.A.Func("(*Conn).handleBdat"); f != nil {
+		for _, st := range s.Find(f, "st:Conn.bdatStatus") {
+			if _, _, v := storedField(st); isNilConst(v) {
+				continue
+			}
+			st := st
+			c.obFollow("collector then pipe", f, func(in ssa.Instruction) bool { return in == st }, []string{"st:Conn.bdatPipe"}, c.F.SkipUnder(`Conn.bdatPipe == nil`), nil)
+		}
+	}
 	// BDAT LAST in LMTP mode: once the delivery result has been received, every reply is one of the per-recipient
 	// replies (also after a backend panic: errPanic is given to the recipients without a status, not sent once)
 	R.Rule("R-lmtp-last-only-per-recipient", "E2 never-after under hypothesis", "in LMTP mode no reply is written between receiving the BDAT delivery result and the end of handleBdat except inside the loop over the accepted recipients", 1)
